@@ -272,6 +272,22 @@ fn big_poly_case(src: &mut Src, ctx: &mut Ctx) -> Result<(), String> {
 /// Triangles and convex quadrilaterals with coordinates up to about 2^30 (layouts in fine units reach
 /// that), queried at the lattice points nearest to their edges, where an inexact cross product
 /// would flip the answer. Convex by construction (vertices sorted by angle around an interior point).
+fn gcd_i128(a: i128, b: i128) -> i128 {
+    if b == 0 {
+        a
+    } else {
+        gcd_i128(b, a % b)
+    }
+}
+/// (x, y) with a*x + b*y = gcd(a, b) (sign conventions of the Euclidean algorithm on signed values)
+fn ext_gcd(a: i128, b: i128) -> (i128, i128) {
+    if b == 0 {
+        (if a < 0 { -1 } else { 1 }, 0)
+    } else {
+        let (x, y) = ext_gcd(b, a % b);
+        (y, x - (a / b) * y)
+    }
+}
 fn large_poly_case(src: &mut Src, ctx: &mut Ctx) -> Result<(), String> {
     let n = src.usize_in(3, 4);
     let big = 1i64 << src.i64_in(20, 30);
@@ -311,6 +327,28 @@ fn large_poly_case(src: &mut Src, ctx: &mut Ctx) -> Result<(), String> {
         qs.push(a);
         qs.push((a.0 + 1, a.1));
         qs.push((a.0, a.1 - 1));
+        // the lattice points closest to the line through the edge without being on it (cross product
+        // +-gcd), and lattice points exactly on it, about one and two thirds of the way along
+        let (dx, dy) = ((b.0 - a.0) as i128, (b.1 - a.1) as i128);
+        let g = gcd_i128(dx.abs(), dy.abs());
+        if g > 0 {
+            let (rx, ry) = (dx / g, dy / g);
+            // rx * v - ry * u = 1
+            let (x, y) = ext_gcd(rx, ry); // rx*x + ry*y = 1
+            let (u0, v0) = (-y, x);
+            let len2 = (rx * rx + ry * ry) as f64;
+            for t in [1.0f64 / 3.0, 2.0 / 3.0] {
+                let s0 = (u0 as f64 * rx as f64 + v0 as f64 * ry as f64) / len2; // position of (u0, v0) along the reduced direction
+                let k = (t * g as f64 - s0).round() as i128;
+                let (u, v) = (u0 + k * rx, v0 + k * ry);
+                for (pu, pv) in [(u, v), (-u + 2 * ((t * g as f64).round() as i128) * rx, -v + 2 * ((t * g as f64).round() as i128) * ry), (((t * g as f64).round() as i128) * rx, ((t * g as f64).round() as i128) * ry)] {
+                    let q = (a.0 as i128 + pu, a.1 as i128 + pv);
+                    if q.0.abs() < (1i128 << 40) && q.1.abs() < (1i128 << 40) {
+                        qs.push((q.0 as i64, q.1 as i64));
+                    }
+                }
+            }
+        }
     }
     ctx.extra_evals(qs.len() as u64);
     for q in qs {
